@@ -63,7 +63,10 @@ def run_check(prop: str, tier: str, seed: int, only_shard: int | None = None, ns
             hs = os.environ.get("VMON_HASHSEED") or str(0 if s == 0 else (seed * 1000003 + s * 7919 + 1) % 4294967295)
             env = shard_env(dict(VMON_WORK=os.path.join(work, f"w{s}"), PYTHONHASHSEED=hs))
             os.makedirs(env["VMON_WORK"], exist_ok=True)
-            p = subprocess.Popen([PY, "-m", "vmon.worker", prop, tier, str(seed), str(s), str(nshards), out],
+            # environment diversity: a property module may ask for its last shard to run in an interpreter started with -O
+            # (assert statements not executed) - valid inputs must be handled the same way there
+            opt = ["-O"] if (getattr(mod, "OPTIMISED_LAST_SHARD", False) and s == nshards - 1 and nshards > 1) else []
+            p = subprocess.Popen([PY, *opt, "-m", "vmon.worker", prop, tier, str(seed), str(s), str(nshards), out],
                                  cwd=VERIF_ROOT, env=env, stdout=log, stderr=subprocess.STDOUT)
             procs.append((s, p, out, log))
         deadline = t0 + WATCHDOG[tier]
